@@ -25,7 +25,7 @@ RULE = ('cases = (function form, nrows, set of failing rows, set of failing fiel
 ASSUMPTIONS = ['the private exception type identifies the converter failure', 'config default is read when the view is constructed (anchor mechanism)']
 EXC_NAMES_ = sorted(['InjectedFault'] + [b.__name__ for b in (KeyError, IndexError, ValueError, TypeError, AttributeError, ZeroDivisionError, RuntimeError, AssertionError, LookupError, ArithmeticError, UnicodeError, OSError, NotImplementedError, Exception)] + ['StopIteration'])
 FORMS = ['convert-callable', 'convert-multi', 'convert-method', 'fieldmap-dict', 'convert-passrow', 'convert-where', 'convertall', 'convertnumbers', 'fieldmap', 'rowmap', 'rowmapmany']
-REQUIRED = (['form:' + f for f in FORMS] + ['policy:False', 'policy:True', 'policy:inline', 'via:config', 'via:arg',
+REQUIRED = (['form:' + f for f in FORMS] + ['policy-passed-by-position', 'policy:False', 'policy:True', 'policy:inline', 'via:config', 'via:arg',
             'fail-first-row', 'fail-last-row', 'fail-consecutive', 'fail-all-rows', 'exception-surfaced-at-failing-row',
             'inline-exception-delivered', 'errorvalue-delivered', 'row-dropped', 'generator-rows-kept-before-failure', 'rowmap:lazy-mapper-result', 'rows-longer-than-the-header', 'len-of-the-view-taken', 'cells-holding-exception-objects'] +
             ['exc:' + e for e in EXC_NAMES_])
@@ -181,13 +181,21 @@ def judge(case, ctx):
     # ---- build the view, with the policy as argument or as config default at construction time
     kw = {}
     if via == 'arg':
-        kw['failonerror'] = policy
+        kw['failonerror'] = util.fresh(policy)      # 'inline' as a run-time string (read from a config file, say): equal, not identical
         pcfg.failonerror = {False: True, True: False, 'inline': False}[policy]    # must be ignored
     else:
-        pcfg.failonerror = policy
+        pcfg.failonerror = util.fresh(policy)
     if ev is not None:
         kw['errorvalue'] = ev
     exc_type = Fault
+    # the documented signatures put the policy (and, for fieldmap, the error value after it) right behind the required arguments:
+    # a third of the argument-form cases pass them by position
+    pos = ()
+    if via == 'arg' and form in ('fieldmap', 'fieldmap-dict', 'rowmap', 'rowmapmany') and int(util.fp(case)[4:6], 16) % 3 == 0:
+        pos = (kw.pop('failonerror'),)
+        if 'errorvalue' in kw and form.startswith('fieldmap'):
+            pos = pos + (kw.pop('errorvalue'),)
+        ctx.seen('policy-passed-by-position')
     if form == 'convert-callable':
         view = petl.convert(table, ('a', 'b'), conv, **kw)
     elif form == 'convert-multi':
@@ -201,7 +209,7 @@ def judge(case, ctx):
         m['id'] = 'id'
         m['a'] = ('a', {'a%d' % i: 'A%d' % i for i in range(n)})
         m['b'] = 'b'
-        view = petl.fieldmap(table, m, **kw)
+        view = petl.fieldmap(table, m, *pos, **kw)
         exc_type = TypeError
     elif form == 'convert-passrow':
         view = petl.convert(table, ('a', 'b'), conv_row, pass_row=True, **kw)
@@ -218,7 +226,7 @@ def judge(case, ctx):
         m['id'] = 'id'
         m['A'] = ('a', conv)
         m['B'] = lambda rec: conv(rec['b'])
-        view = petl.fieldmap(table, m, **kw)
+        view = petl.fieldmap(table, m, *pos, **kw)
     elif form == 'rowmap':
         def mapper(row):
             calls.append((row['id'], 'row'))
@@ -246,7 +254,7 @@ def judge(case, ctx):
                 def mapper(row):        # noqa: F811
                     calls.append((row['id'], 'row'))
                     return map(lambda j: cell(row, j), range(3))
-        view = petl.rowmap(table, mapper, ['id', 'A', 'B'], **kw)
+        view = petl.rowmap(table, mapper, ['id', 'A', 'B'], *pos, **kw)
     elif form == 'rowmapmany':
         def gen(row):
             calls.append((row['id'], 'row'))
@@ -256,7 +264,7 @@ def judge(case, ctx):
                 raise Fault((row['id'], 'row'))
             yield [row['id'], row['a'].upper()]
             yield [row['id'], row['b'].upper()]
-        view = petl.rowmapmany(table, gen, ['id', 'v'], **kw)
+        view = petl.rowmapmany(table, gen, ['id', 'v'], *pos, **kw)
     # the default must have been taken at construction: change the config now
     if via == 'config':
         pcfg.failonerror = {False: True, True: False, 'inline': False}[policy]
